@@ -856,6 +856,66 @@ func ruleQ9(c *Ctx) {
 	}
 }
 
+// ruleQ9b: the accessors the producers advance with hand out the raw link.
+func ruleQ9b(c *Ctx) {
+	R := c.R
+	p := c.P
+	R.Rule("Q9b", "Element.Next / Previous (and Item.Next) return the receiver's link field on every path that has a receiver; they do not consult membership (a removed element keeps its links precisely so that an iterator standing on it can walk on)", 2)
+	for _, pr := range [][2]string{{"dt.(*Element).Next", "next"}, {"dt.(*Element).Previous", "prev"}} {
+		f := p.FuncNamed(pr[0])
+		at := pr[0] + "/raw-link"
+		if f == nil {
+			R.Fail("Q9b", at, "-", "not found")
+			continue
+		}
+		info := f.Info()
+		recv := paramObj2(f, -1)
+		bad := ""
+		n := 0
+		walkNoLit(f.Body, func(x ast.Node) bool {
+			rs, ok := x.(*ast.ReturnStmt)
+			if !ok || len(rs.Results) != 1 {
+				return true
+			}
+			n++
+			r := ast.Unparen(resolveLocal(f, rs.Results[0]))
+			if se, ok := r.(*ast.SelectorExpr); ok && se.Sel.Name == pr[1] {
+				if id, ok := ast.Unparen(se.X).(*ast.Ident); ok && info.Uses[id] == recv {
+					return true
+				}
+			}
+			// a return for the nil receiver
+			for y := p.Parent(rs); y != nil && y != ast.Node(f.Body); y = p.Parent(y) {
+				if ifs, isIf := y.(*ast.IfStmt); isIf && p.inside(rs, ifs.Body) {
+					if be, isBin := ast.Unparen(ifs.Cond).(*ast.BinaryExpr); isBin && be.Op == token.EQL && errNilCmpAny(info, be, recv) {
+						return true
+					}
+				}
+			}
+			bad = exprStr(rs.Results[0]) + " at " + p.Position(rs.Pos())
+			return true
+		})
+		R.Check(n > 0 && bad == "", "Q9b", at, p.Position(f.Pos()), "returns e."+pr[1], pr[0]+" returns "+bad+" instead of the receiver's "+pr[1]+" link: a producer standing on a removed element reads a nil (or other) link, reports io.EOF and the members behind it are never visited")
+	}
+}
+
+// errNilCmpAny: be compares obj with nil.
+func errNilCmpAny(info *types.Info, be *ast.BinaryExpr, obj types.Object) bool {
+	isNil := func(e ast.Expr) bool {
+		id, ok := ast.Unparen(e).(*ast.Ident)
+		if !ok {
+			return false
+		}
+		_, n := info.Uses[id].(*types.Nil)
+		return n
+	}
+	isObj := func(e ast.Expr) bool {
+		id, ok := ast.Unparen(e).(*ast.Ident)
+		return ok && info.Uses[id] == obj
+	}
+	return (isObj(be.X) && isNil(be.Y)) || (isObj(be.Y) && isNil(be.X))
+}
+
 // ---------------------------------------------------------------- H7
 
 // ruleH7: Merge replays every source bucket at the bucket's own representative
